@@ -14,7 +14,6 @@ func VerifSetup_Ring(n int, moduli []uint64) *Ring {
 	return r
 }
 
-
 // Shared native set-up helpers for the ring-package harnesses (executed natively, results imported).
 
 // VerifSetup_Consts returns {BRedConstant[0], BRedConstant[1], MRedConstant} computed by the real generators.
